@@ -325,8 +325,9 @@ main(void)
 			struct timeval big;
 			void * p;
 
-			big.tv_sec = (time_t)0x7fffffffffffffffLL;
-			big.tv_usec = 0x7fffffffffffffffLL;
+			/* later than anything the generators produce, yet far from the integer limits */
+			big.tv_sec = (time_t)1 << 40;
+			big.tv_usec = 999999;
 			printf("tdrain ");
 			while ((p = timerqueue_getptr(Q, &big)) != NULL) {
 				printf("%s%zu", n ? "," : "", (size_t)(uintptr_t)p);
